@@ -300,6 +300,21 @@ Definition notify_of (e : exn) : payload :=
   | _ => P_NOTIFY PROTO_NONE N_INVALID_SYNTAX [] []
   end.
 
+(** The admission lists of the handlers (_check_in_states / assert).  They are NOTATIONS (the handlers below contain the
+    literal lists); HdlFacts.v proves each of them equal to the list regenerated from the source (admissions table). *)
+Notation ADM_process_ike_sa_init_request := [ST_INITIAL] (only parsing).
+Notation ADM_process_ike_auth_request := [ST_INIT_RES_SENT] (only parsing).
+Notation ADM_process_ike_sa_init_response := [ST_INIT_REQ_SENT] (only parsing).
+Notation ADM_process_ike_auth_response := [ST_AUTH_REQ_SENT] (only parsing).
+Notation ADM_process_create_child_sa_response :=
+  [ST_NEW_CHILD_REQ_SENT; ST_REK_CHILD_REQ_SENT; ST_REK_IKE_SA_REQ_SENT] (only parsing).
+Notation ADM_process_informational_response :=
+  [ST_DEL_CHILD_REQ_SENT; ST_DEL_IKE_SA_REQ_SENT; ST_DPD_REQ_SENT; ST_DEL_AFTER_REKEY_IKE_SA_REQ_SENT] (only parsing).
+Notation ADM_generate_established := [ST_ESTABLISHED] (only parsing).
+Notation ADM_generate_delete_ike_sa_request := [ST_ESTABLISHED; ST_REKEYED] (only parsing).
+Notation ADM_generate_ike_sa_init_request := [ST_INITIAL] (only parsing).
+Notation ADM_generate_ike_auth_request := [ST_INIT_REQ_SENT] (only parsing).
+
 (* ------------------------------------------------------------------------------------------------ *)
 Section Handlers.
   Variable E : env.
@@ -620,13 +635,13 @@ Section Handlers.
     modc (fun c => c <| request := Some (exch, ps) |>) ;;; ret (exch, ps).
 
   Definition generate_delete_child_sa_request (ch : child) : H (Z * list payload) :=
-    assert_state [ST_ESTABLISHED] ;;;
+    assert_state ADM_generate_established ;;;
     r <- set_request EX_INFORMATIONAL [P_DELETE (pr_proto (c_prop ch)) [c_in ch]] ;;
     modc (fun c => c <| st := ST_DEL_CHILD_REQ_SENT |> <| deleting := Some ch |>) ;;;
     ret r.
 
   Definition generate_create_child_sa_request (ch : child) (rekeyed : option child) : H (Z * list payload) :=
-    assert_state [ST_ESTABLISHED] ;;;
+    assert_state ADM_generate_established ;;;
     modc (fun c => c <| creating := Some ch |>) ;;;
     cps <- gen_child_nego_req ch ;;
     cps' <- match rekeyed with
@@ -640,19 +655,19 @@ Section Handlers.
     ret r.
 
   Definition generate_dpd_request : H (Z * list payload) :=
-    assert_state [ST_ESTABLISHED] ;;;
+    assert_state ADM_generate_established ;;;
     r <- set_request EX_INFORMATIONAL [] ;;
     set_state ST_DPD_REQ_SENT ;;; ret r.
 
   Definition generate_delete_ike_sa_request : H (Z * list payload) :=
-    assert_state [ST_ESTABLISHED; ST_REKEYED] ;;;
+    assert_state ADM_generate_delete_ike_sa_request ;;;
     r <- set_request EX_INFORMATIONAL [P_DELETE PROTO_IKE []] ;;
     c <- getc ;;
     set_state (if Z.eqb (st c) ST_ESTABLISHED then ST_DEL_IKE_SA_REQ_SENT else ST_DEL_AFTER_REKEY_IKE_SA_REQ_SENT) ;;;
     ret r.
 
   Definition generate_ike_sa_init_request (ch : child) : H (Z * list payload) :=
-    assert_state [ST_INITIAL] ;;;
+    assert_state ADM_generate_ike_sa_init_request ;;;
     ps <- gen_ike_nego_request false ;;
     r <- set_request EX_IKE_SA_INIT (ps ++ [P_VENDOR VENDOR_ID]) ;;
     set_state ST_INIT_REQ_SENT ;;;
@@ -662,7 +677,7 @@ Section Handlers.
     ret r.
 
   Definition generate_rekey_ike_sa_request : H (Z * list payload) :=
-    assert_state [ST_ESTABLISHED] ;;;
+    assert_state ADM_generate_established ;;;
     c <- getc ;;
     nc <- new_core true [] c ;;
     modify (fun s => s <| new_sa := Some nc |>) ;;;
@@ -671,7 +686,7 @@ Section Handlers.
     set_state ST_REK_IKE_SA_REQ_SENT ;;; ret r.
 
   Definition generate_ike_auth_request : H (Z * list payload) :=
-    assert_state [ST_INIT_REQ_SENT] ;;;
+    assert_state ADM_generate_ike_auth_request ;;;
     c <- getc ;;
     cr <- of_opt (creating c) X_Other ;;
     cps <- gen_child_nego_req cr ;;
@@ -753,7 +768,7 @@ Section Handlers.
   (** ** Request handlers *)
 
   Definition process_ike_sa_init_request (m : pmsg body) : H (list payload) :=
-    check_in_states [ST_INITIAL] ;;;
+    check_in_states ADM_process_ike_sa_init_request ;;;
     ps <- ike_nego_request false m false None ;;
     let ps' := ps ++ [P_VENDOR VENDOR_ID] in
     set_state ST_INIT_RES_SENT ;;;
@@ -764,7 +779,7 @@ Section Handlers.
     ret ps'.
 
   Definition process_ike_auth_request (m : pmsg body) : H (list payload) :=
-    check_in_states [ST_INIT_RES_SENT] ;;;
+    check_in_states ADM_process_ike_auth_request ;;;
     pid <- get_payload m K_IDi true ;;
     pa <- get_payload m K_AUTH true ;;
     c <- getc ;;
@@ -836,7 +851,7 @@ Section Handlers.
   (** ** Response handlers: the result is the follow-up request, if any *)
 
   Definition process_ike_sa_init_response (m : pmsg body) : H (option (Z * list payload)) :=
-    check_in_states [ST_INIT_REQ_SENT] ;;;
+    check_in_states ADM_process_ike_sa_init_response ;;;
     match get_notifies m N_INVALID_KE_PAYLOAD false with
     | (_ :: _) as nots =>
         modc (fun c => c <| my_msg_id_reset := true |>) ;;;
@@ -879,7 +894,7 @@ Section Handlers.
                 end).
 
   Definition process_ike_auth_response (m : pmsg body) : H (option (Z * list payload)) :=
-    check_in_states [ST_AUTH_REQ_SENT] ;;;
+    check_in_states ADM_process_ike_auth_response ;;;
     abort_on_error_notifies m true [N_NO_PROPOSAL_CHOSEN; N_TS_UNACCEPTABLE] ;;;
     pid <- get_payload m K_IDr true ;;
     pa <- get_payload m K_AUTH true ;;
@@ -900,7 +915,7 @@ Section Handlers.
      N_TEMPORARY_FAILURE; N_INTERNAL_ADDRESS_FAILURE; N_FAILED_CP_REQUIRED; N_INVALID_KE_PAYLOAD; N_INVALID_KE_PAYLOAD].
 
   Definition process_create_child_sa_response (m : pmsg body) : H (option (Z * list payload)) :=
-    check_in_states [ST_NEW_CHILD_REQ_SENT; ST_REK_CHILD_REQ_SENT; ST_REK_IKE_SA_REQ_SENT] ;;;
+    check_in_states ADM_process_create_child_sa_response ;;;
     abort_on_error_notifies m true CCSA_IGNORE ;;;
     c <- getc ;;
     let inv := get_notifies m N_INVALID_KE_PAYLOAD true in
@@ -948,8 +963,7 @@ Section Handlers.
            else ret None).
 
   Definition process_informational_response (m : pmsg body) : H (option (Z * list payload)) :=
-    check_in_states [ST_DEL_CHILD_REQ_SENT; ST_DEL_IKE_SA_REQ_SENT; ST_DPD_REQ_SENT;
-                     ST_DEL_AFTER_REKEY_IKE_SA_REQ_SENT] ;;;
+    check_in_states ADM_process_informational_response ;;;
     abort_on_error_notifies m true [] ;;;
     c <- getc ;;
     if Z.eqb (st c) ST_DEL_CHILD_REQ_SENT then
